@@ -244,6 +244,31 @@ def check_state(cls, a, state):
     wantv = ((iso, c, r, o['number']), (iso, c, r, c, r, o['number']))
     if got != wantv:
         bad.append(('Query/Dynamic variant from_atom', got, wantv))
+    else:
+        # the dynamic variant of the walked object against that of a fresh one with the product state (charge + 1 wrapped, radical flipped)
+        other = cls(iso, charge=(c + 5) % 9 - 4, is_radical=not r)
+        try:
+            d2 = DynamicElement.from_atoms(a, other)
+            dc = d2.copy()
+            got = (d2.isotope, d2.charge, d2.is_radical, d2.p_charge, d2.p_is_radical, d2.is_dynamic, dc == d2, hash(dc) == hash(d2),
+                   d2 == DynamicElement.from_atoms(fresh, other), d2 == d, DynamicElement.from_atoms(a, fresh) == d)
+        except Exception as e:
+            got = 'raises ' + type(e).__name__
+        wantd = (iso, c, r, other.charge, not r, True, True, True, True, False, True)
+        if got != wantd:
+            bad.append(('DynamicElement.from_atoms / copy / == / hash', got, wantd))
+    if iso is not None:  # the same label given as an offset from the reference isotope
+        try:
+            b = cls(delta_isotope=iso - o['mdl'], charge=c, is_radical=r)
+            got = (b.isotope, b == a, _close(observe(b)['mass'], want))
+        except Exception as e:
+            got = 'raises ' + type(e).__name__
+        if got != (iso, True, True):
+            bad.append((f'constructor with delta_isotope={iso - o["mdl"]}', got, (iso, True, True)))
+    import copy as _copy
+    cc = _copy.copy(a)
+    if (cc.isotope, cc.charge, cc.is_radical) != state or not cc == a:
+        bad.append(('copy.copy()', (cc.isotope, cc.charge, cc.is_radical), state))
     cp = a.copy()
     if not _close(observe(cp)['mass'], want) or (cp.isotope, cp.charge, cp.is_radical) != state:
         bad.append(('copy()', (cp.isotope, cp.charge, cp.is_radical, observe(cp)['mass']), state + (want,)))
@@ -384,7 +409,9 @@ def molecule_history(cls, full=False):
             with m:
                 m.atom(1).isotope = iso
         h = m.atom(1).implicit_hydrogens   # the transaction recalculates the hydrogens of the re-labelled atom
-        tests = [('atom(1).atomic_mass', lambda: m.atom(1).atomic_mass, table_mass(cls, iso))]
+        tests = [('atom(1).atomic_mass', lambda: m.atom(1).atomic_mass, table_mass(cls, iso)),
+                 ('hash(atom(1)) == hash(atom of a freshly built molecule)', lambda: hash(m.atom(1)) == hash(_mol(cls, iso, 0, False, h).atom(1)), True),
+                 ('atom(1).copy(hydrogens=True) keeps label and hydrogens', lambda: (m.atom(1).copy(hydrogens=True).isotope, m.atom(1).copy(hydrogens=True).implicit_hydrogens, m.atom(1).copy().implicit_hydrogens), (iso, h, None))]
         if h is not None:
             want = table_mass(cls, iso) + h * table_mass(H, None)
             tests += [('molecular_mass', lambda: m.molecular_mass, want), ('copy().molecular_mass', lambda: m.copy().molecular_mass, want)]
@@ -395,7 +422,7 @@ def molecule_history(cls, full=False):
                 got = get()
             except Exception as e:
                 got = 'raises ' + type(e).__name__
-            yield (f'{name} after labels {seq[:k + 1]}', _close(got, want), got, want)
+            yield (f'{name} after labels {seq[:k + 1]}', _close(got, want) if isinstance(want, float) else got == want, got, want)
 
 
 def query_history(cls, qcls, full=False):
